@@ -1,4 +1,4 @@
-#include "/repo/src/transmission/bidib_transmission_receive.c"
+#include "src/transmission/bidib_transmission_receive.c"
 #include "vx.h"
 #include <stdio.h>
 static size_t dump_q(GQueue *q, const char *name, char *buf, size_t n) {
